@@ -44,6 +44,32 @@ def instances(prog, base):
     return fs
 
 
+def allreduce_roles(prog):
+    """(index, name) of the five parameters of the internal helper allreduce_result, found by their types so
+    that the rules do not depend on the parameter order or names"""
+    f = instances(prog, 'hep::allreduce_result')[0]
+    roles = {}
+    for i, q in enumerate(f.params):
+        t = (q.type or '').strip()
+        if 'plain_result' in t:
+            r = 'result'
+        elif 'vector' in t:
+            r = 'out' if t.endswith('&') and not t.endswith('&&') and not t.startswith('const') else 'inb'
+        elif 'communicator' in t or 'MPI_Comm' in t:
+            r = 'comm'
+        elif t in ('unsigned long', 'std::size_t', 'size_t', 'unsigned long long', 'unsigned int'):
+            r = 'total'
+        else:
+            raise AnalysisBroken('parameter %s of allreduce_result has an unexpected type %s' % (q.name, t))
+        if r in roles:
+            raise AnalysisBroken('allreduce_result has two parameters in the role %s' % r)
+        roles[r] = (i, q.name)
+    if sorted(roles) != ['comm', 'inb', 'out', 'result', 'total']:
+        raise AnalysisBroken('allreduce_result does not have its five parameters (communicator, result, buffer, '
+                             'in_buffer, total_calls)')
+    return roles
+
+
 def summarise(prog, func, opaque=(), args=None, this=None, **kw):
     ex = symex.SymEx(prog, opaque=opaque, **kw)
     s = ex.summarise(func, args=args, this=this)
@@ -406,3 +432,51 @@ def under_mode(term, mode_term, m):
     out = T.subst(term, mp)
     # a switch over the mode: ('switch'...) is lowered to equality tests, nothing else to do
     return out
+
+
+def accumulate_roles(prog):
+    """positions of (sum, sum of squares, compensation, value) among the parameters of the internal
+    helper hep::accumulate, found from what the function does with them (the order of the parameters
+    of an internal helper is free): value = the by-value parameter; sum of squares = the reference
+    whose new value is old + value*value; sum = the reference whose new value is old + value when the
+    compensation is zero; compensation = the remaining reference"""
+    cached = getattr(prog, '_acc_roles', None)
+    if cached is not None:
+        return cached
+    fs = [f for f in prog.find('hep::accumulate') if len(f.params) == 4]
+    if not fs:
+        raise AnalysisBroken('anchor vanished: hep::accumulate with four parameters')
+    f = fs[0]
+    ex = symex.SymEx(prog)
+    s = ex.summarise(f)
+    refs = [i for i, q in enumerate(f.params) if symex.is_mut_ref(q.type)]
+    vals = [i for i, q in enumerate(f.params) if not symex.is_ref(q.type)]
+    roles = None
+    if len(refs) == 3 and len(vals) == 1:
+        v = T.sym(f.params[vals[0]].name)
+        fin = {i: ex.param_value(s, f.params[i].name) for i in refs}
+        pre = {i: T.sym(f.params[i].name) for i in refs}
+        sq = [i for i in refs if algebra.equal(fin[i], T.add(pre[i], T.mul(v, v)))[0]]
+        if len(sq) == 1:
+            rest = [i for i in refs if i != sq[0]]
+            sm = None
+            for a, b in ((rest[0], rest[1]), (rest[1], rest[0])):
+                if algebra.equal(T.subst(fin[a], {pre[b]: T.ZERO}), T.add(pre[a], v))[0]:
+                    sm, cp = a, b
+                    break
+            if sm is not None:
+                roles = (sm, sq[0], cp, vals[0])
+    if roles is None:
+        # unknown shape: keep the declared order (the rules of C14 decide what is wrong with it)
+        roles = (0, 1, 2, 3)
+    prog._acc_roles = roles
+    return roles
+
+
+def accumulate_args(prog, e):
+    """(sum cell, squares cell, compensation cell, value) of an opaque accumulate() call effect, and
+    the lvalues bound to the three reference parameters in the same order"""
+    r = accumulate_roles(prog)
+    a = e['args']
+    lvs = e.get('ref_lvs') or {}
+    return [a[r[0]], a[r[1]], a[r[2]], a[r[3]]], {0: lvs.get(r[0]), 1: lvs.get(r[1]), 2: lvs.get(r[2])}
